@@ -286,13 +286,17 @@ func (x *Exec) enterLoop(li *loopInfo, st *State) error {
 	if li.spec != nil {
 		for _, g := range li.spec.Ghosts {
 			ctx := x.specCtx(st, li)
-			v, err := x.specEval(ctx, g.Init)
-			if err != nil {
-				return fmt.Errorf("loop %d ghost %s init: %v", ord, g.Name, err)
-			}
 			ty, err := x.resolveType(g.Type, x.pkg)
 			if err != nil {
 				return err
+			}
+			if g.Init.Kind == "ident" && g.Init.Name == "_" {
+				st.ghost["lg:"+g.Name] = x.havocSpec(ty, "lg."+g.Name) // arbitrary initial value
+				continue
+			}
+			v, err := x.specEval(ctx, g.Init)
+			if err != nil {
+				return fmt.Errorf("loop %d ghost %s init: %v", ord, g.Name, err)
 			}
 			st.ghost["lg:"+g.Name] = x.coerceSpec(v, ty)
 		}
@@ -481,7 +485,9 @@ func (x *Exec) havocHeapKey(st *State, k string, hint string) {
 		st.heap[k] = nw
 		return
 	}
-	st.heap[k] = x.D.fresh("H."+k+"."+hint, s)
+	nh := x.D.fresh("H."+k+"."+hint, s)
+	st.heap[k] = nh
+	x.nilMapFact(k, nh)
 }
 
 func (x *Exec) havocAllHeap(st *State, hint string) {
@@ -502,7 +508,9 @@ func (x *Exec) closeLoop(li *loopInfo, st *State, cond *Term) {
 	// ghost steps (evaluated in the end-of-body state, simultaneously)
 	newG := map[string]*Val{}
 	for _, g := range li.spec.Ghosts {
-		v, err := x.specEval(x.specCtx(s, li), g.Step)
+		gctx := x.specCtx(s, li)
+		gctx.inBody = true // the step describes the iteration that just ran: its body locals are in scope
+		v, err := x.specEval(gctx, g.Step)
 		if err != nil {
 			x.errorf("loop %d ghost %s step: %v", li.ord, g.Name, err)
 			continue
